@@ -6,6 +6,7 @@ package ledger
 import (
 	"bytes"
 	"math/big"
+	"sort"
 )
 
 // Rand is the subset of hx.Rng the generator needs (avoids an import cycle).
@@ -172,12 +173,7 @@ func (m *Miner) Spendables(view map[OutPoint]Coin, height uint32, used map[OutPo
 }
 
 func sortRefs(r []CoinRef) {
-	// insertion sort on (hash, n): small lists
-	for i := 1; i < len(r); i++ {
-		for j := i; j > 0 && lessOp(r[j].Op, r[j-1].Op); j-- {
-			r[j], r[j-1] = r[j-1], r[j]
-		}
-	}
+	sort.Slice(r, func(i, j int) bool { return lessOp(r[i].Op, r[j].Op) })
 }
 
 func lessOp(a, b OutPoint) bool {
@@ -257,6 +253,7 @@ type BlockOpts struct {
 	Time         uint32 // 0 = parent time + ~600
 	InBlockChain bool   // allow spending outputs created earlier in the same block
 	Viol         string // "" = valid block; else one contextual violation (C04 catalogue)
+	ViewFrom     *Node  // build on an INVALID parent: take the coins from this (valid) ancestor's view
 }
 
 // C04Violations is the catalogue of contextual violations Build knows.
@@ -277,7 +274,11 @@ func (m *Miner) Build(parent *Node, o BlockOpts) (b *Block, ok bool) {
 	height := parent.Height + 1
 	b = &Block{Label: o.Viol}
 	view := map[OutPoint]Coin{}
-	for k, v := range parent.UTXO() {
+	viewNode := parent
+	if o.ViewFrom != nil {
+		viewNode = o.ViewFrom
+	}
+	for k, v := range viewNode.UTXO() {
 		view[k] = v
 	}
 	used := map[OutPoint]bool{}
@@ -489,7 +490,10 @@ func (m *Miner) Build(parent *Node, o BlockOpts) (b *Block, ok bool) {
 				rest += x.Value
 			}
 			a := (tot - rest) / 3
-			switch m.R.Intn(3) {
+			switch m.R.Intn(5) {
+			case 3, 4: // an in-range amount first, then one that makes the 64-bit running total wrap to something small
+				t.Out[0].Value = a
+				t.Out[1].Value = ^uint64(0) - a + 1 + a/2 // a + this = a/2 (mod 2^64)
 			case 0: // two outputs of 2^63+x: the 64-bit sum wraps
 				t.Out[0].Value = 1<<63 + a
 				t.Out[1].Value = 1<<63 + a
@@ -586,8 +590,14 @@ func (m *Miner) Build(parent *Node, o BlockOpts) (b *Block, ok bool) {
 			rest += x.Value
 		}
 		a := (claim - rest) / 2
-		cb.Out[0].Value = 1<<63 + a
-		cb.Out[1].Value = 1<<63 + (claim - rest - a)
+		if m.R.Chance(0.5) {
+			cb.Out[0].Value = 1<<63 + a
+			cb.Out[1].Value = 1<<63 + (claim - rest - a)
+		} else {
+			// in-range first, wrapping partner second
+			cb.Out[0].Value = a
+			cb.Out[1].Value = ^uint64(0) - a + 1 + (claim - rest - a)
+		}
 		cb.Touch()
 		violDone = true
 	}
@@ -805,15 +815,21 @@ func (m *Miner) MutateC05(parent *Node, b *Block, kind string, now int64) bool {
 		if len(b.Txs) < 2 {
 			return false
 		}
-		// [.., T] -> [.., T, T] keeps the root when the count was odd; otherwise duplicate the last pair
-		if len(b.Txs)%2 == 1 {
-			b.Txs = append(b.Txs, b.Txs[len(b.Txs)-1])
-		} else {
-			n := len(b.Txs)
-			if n%4 != 2 {
-				return false
+		// duplicate the trailing subtree of 2^k transactions at a level whose node count is odd:
+		// [.., T] -> [.., T, T] at the leaf level, [0..5] -> [0..5, 4, 5] one level up, and so on
+		n := len(b.Txs)
+		done := false
+		for k := uint(0); (n>>k) > 1 && !done; k++ {
+			if n%(1<<k) != 0 {
+				break
 			}
-			b.Txs = append(b.Txs, b.Txs[n-2], b.Txs[n-1])
+			if (n>>k)%2 == 1 {
+				b.Txs = append(b.Txs, b.Txs[n-(1<<k):n]...)
+				done = true
+			}
+		}
+		if !done {
+			return false
 		}
 		// root (and the commitment over wtxids) are deliberately left as they were
 	case "bad-merkle":
